@@ -216,6 +216,8 @@ def check_shape(run, rng, model, m, tier, light=False):
             want = "OK " + (u if w[-1] == "uper" else xh)
             if o != want:
                 run.violation("oracle:frame_encoding(%s)" % w[-1], dict(rp, what="the C encoder's output differs from the frame assembled from the rows' own encodings", expected=want))
+        elif "=" not in o:
+            run.violation("oracle:opentype_roundtrip", dict(rp, what="round-trip battery failed"))
         else:
             for part in o.split():
                 syn, _, st = part.partition("=")
@@ -225,8 +227,6 @@ def check_shape(run, rng, model, m, tier, light=False):
                 if syn == "xer" and mt and int(mt.group(1)) + 1 == int(mt.group(2)):
                     continue
                 run.violation("oracle:opentype_roundtrip(%s)" % syn, dict(rp, what="encode-then-decode does not return the frame: " + st))
-            if "=" not in o:
-                run.violation("oracle:opentype_roundtrip", dict(rp, what="round-trip battery failed"))
 
 
 def check_zero(run, model, m, Fc, tier):
